@@ -6,6 +6,7 @@ import (
 	"encoding/json"
 	"flag"
 	"fmt"
+	"go/types"
 	"os"
 	"runtime/debug"
 	"strconv"
@@ -46,6 +47,36 @@ func main() {
 			}
 			for _, u := range eff.Unknown[fn] {
 				fmt.Printf("    UNKNOWN %s\n", u)
+			}
+		}
+	case "normalise":
+		repo := os.Args[2]
+		p, err := core.Load(repo, core.Configs[0])
+		if err != nil {
+			fmt.Fprintln(os.Stderr, err)
+			os.Exit(2)
+		}
+		cur := p
+		merged := map[string][]byte{}
+		for round := 0; round < 4; round++ {
+			ov, names := core.NormaliseOverlay(cur, rules.AnchorsByName(cur))
+			if len(ov) == 0 {
+				break
+			}
+			fmt.Println("round", round, "expanded:", names)
+			for f, b := range ov {
+				merged[f] = b
+			}
+			next, err := core.LoadOverlay(repo, core.Configs[0], merged)
+			if err != nil {
+				fmt.Println("normal form does not type-check:", err)
+				break
+			}
+			cur = next
+		}
+		for f, b := range merged {
+			if len(os.Args) > 3 {
+				_ = os.WriteFile(os.Args[3]+"/"+strings.ReplaceAll(strings.TrimPrefix(f, repo+"/"), "/", "_"), b, 0o644)
 			}
 		}
 	case "list":
@@ -142,7 +173,69 @@ func runOne(pr *rules.Property, repo string, cfg core.Config) (rp *core.Report, 
 	rp.Count("module_packages", len(p.Pkgs))
 	rp.Count("module_functions", len(p.ModuleFuncs()))
 	pr.Run(p, rp)
-	return rp, nil
+	if nBad(rp) == 0 || os.Getenv("SPG_NO_NORMALISE") != "" {
+		return rp, nil
+	}
+	// Something is reported on the tree as written. Before believing it, decide the
+	// same rules on the helper-inlined normal form of the same source (semantics
+	// preserving; see core/inline.go): an "extract function" refactoring must not
+	// upset a shape rule. The verdict is taken from whichever form discharges more.
+	best := rp
+	for _, mode := range []func(*core.Program) func(*types.Func) bool{rules.Anchors, rules.AnchorsByName} {
+		if rn := runNormalised(pr, repo, cfg, p, mode); rn != nil && nBad(rn) < nBad(best) {
+			rn.Note("decided on the helper-inlined normal form (expanded: %v); on the tree as written %d obligation(s) did not discharge — positions refer to the regenerated source", rn.P.Inlined, nBad(rp))
+			best = rn
+		}
+		if nBad(best) == 0 {
+			break
+		}
+	}
+	return best, nil
+}
+
+func nBad(rp *core.Report) int {
+	n := 0
+	for _, o := range rp.Obs {
+		if o.Status == core.Violated || o.Status == core.Undecided {
+			n++
+		}
+	}
+	return n
+}
+
+func runNormalised(pr *rules.Property, repo string, cfg core.Config, p *core.Program, anchors func(*core.Program) func(*types.Func) bool) (rp *core.Report) {
+	defer func() {
+		if x := recover(); x != nil {
+			rp = nil
+		}
+	}()
+	cur := p
+	merged := map[string][]byte{}
+	var inlined []string
+	for round := 0; round < 4; round++ {
+		ov, names := core.NormaliseOverlay(cur, anchors(cur))
+		if len(ov) == 0 {
+			break
+		}
+		for f, b := range ov {
+			merged[f] = b
+		}
+		inlined = append(inlined, names...)
+		next, err := core.LoadOverlay(repo, cfg, merged)
+		if err != nil {
+			return nil // the normal form does not type-check: discard it
+		}
+		cur = next
+	}
+	if cur == p {
+		return nil
+	}
+	cur.Inlined = inlined
+	rp = core.NewReport(pr.Meta.ID, cur)
+	rp.Count("module_packages", len(cur.Pkgs))
+	rp.Count("module_functions", len(cur.ModuleFuncs()))
+	pr.Run(cur, rp)
+	return rp
 }
 
 // runFixture runs the property's rules on its seeded-positive fixture module and
